@@ -201,6 +201,13 @@ pub fn main(ctx: &Ctx) -> ! {
         for m in META_VARIANTS {
             cases.push((TreeCfg { fragment: Some(f.clone()), ..Default::default() }, format!("{m}x{m}")));
         }
+        // a meta reached through every insertion mode / after every tree lexeme inside every fragment context
+        // (foreign content, tables, templates ... below a context element that cannot be popped)
+        for p in &prefixes {
+            for m in [META_VARIANTS[0], META_VARIANTS[3]] {
+                cases.push((TreeCfg { fragment: Some(f.clone()), ..Default::default() }, format!("{p}{m}y")));
+            }
+        }
     }
     cases.par_iter().for_each(|(cfg, input)| {
         let mut local = BTreeSet::new();
